@@ -593,4 +593,37 @@ pub struct ServerPool {'''),
                         return Err(err);
                     }
                     if let Some(limit) = pool.settings.checkout_failure_limit {'''),
+    # ------------------------------------------------------------------ C06
+    dict(id="c06-rot-5", prop="C06", file="src/sharding.rs", expect="C06-R4",
+         what="one rotation amount in mix changed (4 -> 5)",
+         old='''        a = a.wrapping_sub(c);
+        a ^= Self::rot(c, 4);
+        c = c.wrapping_add(b);
+
+        b = b.wrapping_sub(a);
+        b ^= Self::rot(a, 6);''', new='''        a = a.wrapping_sub(c);
+        a ^= Self::rot(c, 5);
+        c = c.wrapping_add(b);
+
+        b = b.wrapping_sub(a);
+        b ^= Self::rot(a, 6);'''),
+    dict(id="c06-final-swapped-operands", prop="C06", file="src/sharding.rs", expect="C06-R4",
+         what="b and c swapped in the returned 64-bit value",
+         old='''        ((b as u64) << 32) | (c as u64)''', new='''        ((c as u64) << 32) | (b as u64)'''),
+    dict(id="c06-negative-keys", prop="C06", file="src/sharding.rs", expect="C06-R4",
+         what="negative keys no longer complement the high half",
+         old='''        lohalf ^= if key >= 0 { hihalf } else { !hihalf };''', new='''        lohalf ^= hihalf;'''),
+    dict(id="c06-shard-gt", prop="C06", file="src/client.rs", expect="C06-R2",
+         what="SET SHARD range check off by one",
+         old='''                                if selected_shard >= pool.shards() {''', new='''                                if selected_shard > pool.shards() {'''),
+    dict(id="c06-no-retain", prop="C06", file="src/pool.rs", expect="C06-R3",
+         what="explicit shard no longer narrows the candidates",
+         old='''            Some(shard_id) => candidates.retain(|address| address.shard == shard_id),''',
+         new='''            Some(shard_id) => { let _ = shard_id; }'''),
+    dict(id="c06-key-modulo", prop="C06", file="src/query_router.rs", expect="C06-R1",
+         what="SET SHARDING KEY uses key % shards instead of the sharder",
+         old='''        let shard = sharder.shard(sharding_key);
+        self.set_shard(Some(shard));''', new='''        let _ = sharder;
+        let shard = sharding_key as usize % self.pool_settings.shards;
+        self.set_shard(Some(shard));'''),
 ]
